@@ -274,6 +274,14 @@ def parts(ctx):
                top_ops=lambda o: o.name != "store", max_new=1, dom={INT: (0, 1, 2)}))
         A(dict(name="arr-%s-d1-partial" % nm, profile=(lambda i, e_: lambda e: P.arr_profile(e, i, e_))(i, e_),
                depth=1, shards=4, partial=True, dom={INT: (0, 1, 2)}))
+    # beyond the small sizes: widths 33 and 65 over a pool of boundary values; five-argument n-ary operators
+    for w in (33, 65):
+        A(dict(name="bv%d-d1" % w, profile=(lambda w: lambda e: P.widebv_profile(e, w))(w), depth=1, shards=8,
+               dom=P.widebv_dom(w)))
+    A(dict(name="nary5-d1", profile=P.nary5_profile, depth=1, shards=16,
+           dom={INT: (-1, 0, 2), REAL: (Fraction(-1), Fraction(0), Fraction(1, 2))}))
+    if not q:
+        A(dict(name="bv5-d1", profile=lambda e: P.bv_profile(e, (5,)), depth=1, shards=64))
     # cross-theory terms (children of another theory below every operator)
     A(dict(name="mixed-d2", profile=lambda e: P.mixed_profile(e, uf=False), depth=2, shards=32, max_new=1,
            dom={INT: (-1, 0, 2), STRING: ("", "a", "12")}))
